@@ -1,4 +1,4 @@
-import Taskpool.Inv.Task
+import Taskpool.Inv.Acc
 /-! Spawners (`_apply_spawner`, `_start_num`, `_arg_consumer`) preserve `Good`. -/
 namespace Taskpool
 namespace Pool
@@ -9,7 +9,7 @@ theorem tame_finishMeta (p : Pool) (m o) : Tame p (p.finishMeta m o) := by
   · exact Tame.refl p
   · refine Tame.trans (tame_modReq p m _ ?_) (tame_emitChildren _ _)
     intro x
-    exact ⟨rfl, rfl, rfl, by simp [Req.pend], fun _ _ h => by cases h⟩
+    exact ⟨rfl, rfl, rfl, by simp [Req.pend], (fun _ _ h => by cases h), rfl, Or.inr (Or.inl rfl)⟩
 
 theorem grantsL_append_notGranted (ws : List Waiter) (w : Waiter) (h : w.st ≠ .granted) :
     grantsL (ws ++ [w]) = grantsL ws := by
@@ -76,7 +76,7 @@ theorem good0_waitRoom {cap : Cap} {L R : Bool} (p : Pool) (m) (hg : Good0 cap L
 
 /-- the spawner of request `m` starts waiting for room: the map slot it carries (a map request always carries one
 here) is entered in the books as carried -/
-theorem mapOK_waitRoom {p : Pool} {m k : Nat} (h : MapMid p m k) (hlt : m < p.reqs.length)
+theorem mapOK_waitRoom {p : Pool} {m : Nat} {k : Int} (h : MapMid p m k) (hlt : m < p.reqs.length) (hk0 : 0 ≤ k)
     (hpre : ∀ r, p.reqs[m]? = some r → r.kind = .map → r.acquired = true ∧ 1 ≤ k) : MapOK (p.waitRoom m) := by
   have key : ∀ P : Pool, P.reqs = p.reqs → P.tasks = p.tasks →
       MapMid (P.modReq m fun x => { x with frame := MFrame.waitRoom, mustCancel := false }) m 0 := by
@@ -104,19 +104,6 @@ theorem mapOK_waitRoom {p : Pool} {m k : Nat} (h : MapMid p m k) (hlt : m < p.re
     exact key _ rfl rfl
   · refine MapMid.ok (m := m) (k := 0) ?_
     exact key _ rfl rfl
-
-theorem msigLe_waitMapSem (x : Req) (w : Waiter) (hw : w.st ≠ .granted) :
-    MSigLe { x with frame := MFrame.waitMapSem, mustCancel := false, acquired := false, mapSem := { x.mapSem with waiters := x.mapSem.waiters ++ [w] } } x :=
-  ⟨rfl, grantsL_append_notGranted _ _ hw, rfl, by simp [Req.pend], fun _ _ h => by cases h⟩
-
-theorem tame_waitMapSem (p : Pool) (m) : Tame p (p.waitMapSem m) := by
-  unfold waitMapSem
-  simp only
-  split
-  · refine Tame.trans (tame_modReq p m _ ?_) (tame_schedMeta _ m)
-    intro x; exact msigLe_waitMapSem x _ (by simp)
-  · refine tame_modReq p m _ ?_
-    intro x; exact msigLe_waitMapSem x _ (by simp)
 
 theorem locked_false_pos (s : Sem) (v : Nat) (hv : s.value = .fin v) (h : s.locked = false) : 0 < v := by
   unfold Sem.locked at h
@@ -242,8 +229,9 @@ theorem mapOK_createTask {p : Pool} {m : Nat} (isMap : Bool) (h : MapMid p m (if
     (hlt : m < p.reqs.length) : MapOK (p.createTask m isMap) := by
   unfold createTask
   simp only
-  refine Tame.map (Tame.trans (tame_modReq _ m _) (tame_emitRef _ _)) ?_
   refine MapMid.ok (m := m) (k := 0) ?_
+  refine MapMid.emitRef ?_ _
+  refine MapMid.modReq_same ?_ _ (fun r => ⟨rfl, rfl, Nat.le_refl _, fun h => h⟩)
   cases isMap with
   | true =>
     refine MapMid.addTask (p := p) (k := 0) h ?x ?hq hlt _ ?ht ?hr
@@ -256,87 +244,191 @@ theorem mapOK_createTask {p : Pool} {m : Nat} (isMap : Bool) (h : MapMid p m (if
     case hr2 => rfl
     case hy => rfl
 
-theorem good_takeSlotAndCreate {cap : Cap} {L R : Bool} (p : Pool) (m : Nat) (isMap : Bool) (hg : Good0 cap L R p)
-    (hmap : MapMid p m (if isMap then 1 else 0)) (hlt : m < p.reqs.length)
-    (hl : p.sem.locked = false) : Good cap L R (p.takeSlotAndCreate m isMap) := by
+theorem reqsLen_createTask' (p : Pool) (m : Nat) (isMap : Bool) : (p.createTask m isMap).reqs.length = p.reqs.length := by
+  unfold createTask
+  simp [emitRef, modReq]
+
+/-- the accounting when a task of request `m` is appended -/
+theorem accAt_createTask {p : Pool} {m : Nat} {P P' : Cnt → MFrame → Prop} (isMap : Bool) (h : AccAt p m P)
+    (hlt : m < p.reqs.length)
+    (hf : ∀ r, p.reqs[m]? = some r → P r.cnt r.frame →
+        P' ({ r with created := r.created + 1 } : Req).cnt ({ r with created := r.created + 1 } : Req).frame) :
+    AccAt (p.createTask m isMap) m P' := by
+  unfold createTask
+  simp only
+  refine AccAt.emitRef ?_ _
+  refine AccAt.addTask (p := p) h ?x ?hq hlt (fun r => { r with created := r.created + 1 }) (fun _ => rfl) hf _ ?ht ?hr
+  case ht => rfl
+  case hr => rfl
+  case hq => rfl
+
+/-- the spawner of `m` takes a pool slot on the fast path and creates the task: a map slot in flight goes to it -/
+theorem spSt_takeSlotAndCreate {cap : Cap} {L R : Bool} {P P' : Cnt → MFrame → Prop} (p : Pool) (m : Nat) (isMap : Bool)
+    (h : SpSt cap L R p m (if isMap then 1 else 0) P) (hl : p.sem.locked = false)
+    (hf : ∀ r, p.reqs[m]? = some r → P r.cnt r.frame →
+        P' ({ r with created := r.created + 1 } : Req).cnt ({ r with created := r.created + 1 } : Req).frame) :
+    SpSt cap L R (p.takeSlotAndCreate m isMap) m 0 P' := by
+  have hg := h.g0
   unfold takeSlotAndCreate
   refine ⟨good0_createTask_afterTake _ m isMap (fun i tk h hn => hg.phase i tk h hn)
     (hg.reg.of_eq rfl rfl rfl rfl rfl) (hg.grp.of_eq rfl rfl) (hg.life.of_eq rfl rfl) ?_ (hg.strict.of_eq rfl rfl)
     (hg.fl.frame rfl rfl (fun _ h => h)) ?_,
-    mapOK_createTask isMap (hmap.of_eq rfl rfl) hlt⟩
-  rotate_left
+    (mapOK_createTask (p := ({ p with sem := { p.sem with value := p.sem.value.dec } } : Pool)) isMap (h.mp.of_eq rfl rfl) h.lt).mid m,
+    accAt_createTask (p := ({ p with sem := { p.sem with value := p.sem.value.dec } } : Pool)) isMap (h.ac.of_eq rfl rfl) h.lt hf, by rw [reqsLen_createTask']; exact h.lt⟩
+  · cases cap with
+    | fin n =>
+      obtain ⟨v, hv, hs⟩ := hg.slot
+      have hpos := locked_false_pos p.sem v hv hl
+      exact ⟨v - 1, by simp [hv, Cap.dec], by simp only; omega⟩
+    | inf =>
+      obtain ⟨hv, hw⟩ := hg.slot
+      show ({ p with sem := { p.sem with value := p.sem.value.dec } } : Pool).sem.value = .inf ∧ _
+      simp [hv, hw, Cap.dec]
   · -- not locked: every waiter still in the queue is cancelled
     intro _ v _ _ _ w hw hp
     unfold Sem.locked at hl
     simp only [Bool.or_eq_false_iff, List.any_eq_false] at hl
     have := hl.2 w hw
     simp [hp] at this
-  cases cap with
-  | fin n =>
-    obtain ⟨v, hv, hs⟩ := hg.slot
-    have hpos := locked_false_pos p.sem v hv hl
-    exact ⟨v - 1, by simp [hv, Cap.dec], by simp only; omega⟩
-  | inf =>
-    obtain ⟨hv, hw⟩ := hg.slot
-    show ({ p with sem := { p.sem with value := p.sem.value.dec } } : Pool).sem.value = .inf ∧ _
-    simp [hv, hw, Cap.dec]
 
-/-- `_apply_spawner`/`_start_num` from any position -/
-theorem good_applyLoop {cap : Cap} {L R : Bool} (m n : Nat) (p : Pool) (hg : Good cap L R p)
-    (hk : ReqAt p m (fun r => r.kind = .apply)) (hlt : m < p.reqs.length) : Good cap L R (applyLoop m n p) := by
+/-- the spawner ends -/
+theorem good_finishMetaSp {cap : Cap} {L R : Bool} {P : Cnt → MFrame → Prop} {k : Int} (p : Pool) (m : Nat) (o : Outcome)
+    (h : SpSt cap L R p m k P) (hk : 0 ≤ k) (hP : ∀ c fr, P c fr → AccReq c .done 0) :
+    Good cap L R (p.finishMeta m o) :=
+  ⟨(tame_finishMeta p m o).toTame0.good0 h.g0, ((tame_finishMeta p m o).mapFrame.mid h.mp h.lt).ok hk,
+    accOK_finishMeta o h.ac hP⟩
+
+/-- the spawner starts waiting for room in the pool -/
+theorem good_waitRoomSp {cap : Cap} {L R : Bool} {P : Cnt → MFrame → Prop} {k : Int} (p : Pool) (m : Nat)
+    (h : SpSt cap L R p m k P) (hl : p.sem.locked = true) (hk0 : 0 ≤ k)
+    (hpre : ∀ r, p.reqs[m]? = some r → r.kind = .map → r.acquired = true ∧ 1 ≤ k)
+    (hP : ∀ c fr, P c fr → AccReq c .waitRoom 0) : Good cap L R (p.waitRoom m) := by
+  refine ⟨good0_waitRoom p m h.g0 hl, mapOK_waitRoom h.mp h.lt hk0 hpre, ?_⟩
+  have key : ∀ Q : Pool, Q.reqs = p.reqs → Q.tasks = p.tasks →
+      AccAt (Q.modReq m fun x => { x with frame := MFrame.waitRoom, mustCancel := false }) m (fun c fr => AccReq c fr 0) := by
+    intro Q hr ht
+    refine (h.ac.of_eq hr ht).modReq _ (fun _ => rfl) ?_
+    intro r _ hp
+    exact hP _ _ hp
+  unfold waitRoom
+  simp only
+  split
+  · refine (tame_schedMeta _ m).acc ?_
+    refine AccAt.ok (m := m) ?_ (fun _ _ x => x)
+    exact key _ rfl rfl
+  · refine AccAt.ok (m := m) ?_ (fun _ _ x => x)
+    exact key _ rfl rfl
+
+/-- the consumer starts waiting for a slot of its own semaphore, the pulled element in hand -/
+theorem good_waitMapSemSp {cap : Cap} {L R : Bool} {P : Cnt → MFrame → Prop} (p : Pool) (m : Nat)
+    (h : SpSt cap L R p m 0 P) (hP : ∀ c fr, P c fr → AccReq c .waitMapSem 0) : Good cap L R (p.waitMapSem m) := by
+  have key : ∀ w : Waiter, w.st ≠ .granted →
+      SpSt cap L R (p.modReq m fun x => { x with frame := MFrame.waitMapSem, mustCancel := false, acquired := false, mapSem := { x.mapSem with waiters := x.mapSem.waiters ++ [w] } }) m 0
+        (fun c fr => AccReq c fr 0) := by
+    intro w hw
+    refine h.modReq _ 0 _ ?_ (fun _ => rfl) (fun _ _ _ _ hf => by cases hf) (fun _ => rfl) (fun r _ hp => hP _ _ hp)
+    intro r v _ hv
+    refine ⟨v, hv, ?_⟩
+    have hp : Req.pend { r with frame := MFrame.waitMapSem, mustCancel := false, acquired := false, mapSem := { r.mapSem with waiters := r.mapSem.waiters ++ [w] } } = 0 := by
+      simp [Req.pend]
+    have hgw : grantsL ({ r with frame := MFrame.waitMapSem, mustCancel := false, acquired := false, mapSem := { r.mapSem with waiters := r.mapSem.waiters ++ [w] } } : Req).mapSem.waiters = grantsL r.mapSem.waiters :=
+      grantsL_append_notGranted _ _ hw
+    rw [hp, hgw]; omega
+  unfold waitMapSem
+  simp only
+  split
+  · exact (tame_schedMeta _ m).good ((key _ (by simp)).good (Int.le_refl 0) (fun _ _ x => x))
+  · exact (key _ (by simp)).good (Int.le_refl 0) (fun _ _ x => x)
+
+/-- `_apply_spawner`/`_start_num` from any position: `n` invocations still to start -/
+theorem good_applyLoop {cap : Cap} {L R : Bool} (m n : Nat) (p : Pool) (h : SpSt cap L R p m 0 (PA n)) :
+    Good cap L R (applyLoop m n p) := by
   induction n generalizing p with
   | zero =>
     unfold applyLoop
-    exact (Tame.trans (tame_modReq p m _) (tame_finishMeta _ m _)).good hg
+    refine good_finishMetaSp _ m _ (h.modReq' _ (PAf 0) (fun _ => ⟨rfl, rfl, Nat.le_refl _⟩) (fun _ _ x => x) (fun _ => rfl) ?_)
+      (Int.le_refl 0) (fun c fr x => PAf.acc x (fun e => by cases e))
+    intro r _ hp
+    exact ⟨hp.1, hp.2, rfl⟩
   | succ n ih =>
     unfold applyLoop
     simp only
-    have hg0 : Good cap L R (p.modReq m fun x => { x with remaining := n + 1 }) := (tame_modReq p m _).good hg
-    have hk0 : ReqAt (p.modReq m fun x => { x with remaining := n + 1 }) m (fun r => r.kind = .apply) :=
-      hk.modReq _ (fun _ h => h)
-    have hlt0 : m < (p.modReq m fun x => { x with remaining := n + 1 }).reqs.length := by simpa [modReq] using hlt
+    have h0 : SpSt cap L R (p.modReq m fun x => { x with remaining := n + 1 }) m 0 (PAf (n + 1)) :=
+      h.modReq' _ (PAf (n + 1)) (fun _ => ⟨rfl, rfl, Nat.le_refl _⟩) (fun _ _ x => x) (fun _ => rfl)
+        (fun r _ hp => ⟨hp.1, hp.2, rfl⟩)
+    have hkind : ∀ r, (p.modReq m fun x => { x with remaining := n + 1 }).reqs[m]? = some r → r.kind = .apply :=
+      fun r hr => (h0.ac.here r hr).1
     split
-    · exact ih _ ((tame_modReq _ m _).good hg0) (hk0.modReq _ (fun _ h => h)) (by simpa [modReq] using hlt)
+    · refine ih _ (h0.modReq' _ (PA n) (fun _ => ⟨rfl, rfl, Nat.le_refl _⟩) (fun _ _ x => x) (fun _ => rfl) ?_)
+      intro r _ hp
+      obtain ⟨a, b, _⟩ := hp
+      exact ⟨a, by show r.created + (r.skipped + 1) + n = r.n0; have : r.created + r.skipped + (n + 1) = r.n0 := b; omega⟩
     · split
-      · exact (tame_finishMeta _ m _).good hg0
+      · exact good_finishMetaSp _ m _ h0 (Int.le_refl 0) (fun c fr x => PAf.acc x (fun e => by cases e))
       · split
-        · exact (tame_finishMeta _ m _).good hg0
+        · exact good_finishMetaSp _ m _ h0 (Int.le_refl 0) (fun c fr x => PAf.acc x (fun e => by cases e))
         · split
           · rename_i hl
-            refine ⟨good0_waitRoom _ m hg0.toGood0 hl, mapOK_waitRoom (hg0.map.mid m) hlt0 ?_⟩
-            intro r hr hkind
-            rw [hk0 r hr] at hkind; cases hkind
+            refine good_waitRoomSp _ m h0 hl (Int.le_refl 0) ?_ (fun c fr x => PAf.acc x (fun _ => by omega))
+            intro r hr hk
+            rw [hkind r hr] at hk; cases hk
           · rename_i hl
-            refine ih _ (good_takeSlotAndCreate _ m false hg0.toGood0 (hg0.map.mid m) hlt0 (by simpa using hl))
-              (reqAt_takeSlotAndCreate hk0 false (fun _ h => h)) ?_
-            rw [reqsLen_takeSlotAndCreate]; exact hlt0
+            refine ih _ (spSt_takeSlotAndCreate _ m false h0 (by simpa using hl) ?_)
+            intro r _ hp
+            obtain ⟨a, b, _⟩ := hp
+            exact ⟨a, by show r.created + 1 + r.skipped + n = r.n0; have : r.created + r.skipped + (n + 1) = r.n0 := b; omega⟩
 
-theorem good_mapStartTask {cap : Cap} {L R : Bool} (p : Pool) (m : Nat) (hg : Good0 cap L R p) (hmap : MapMid p m 1)
-    (hlt : m < p.reqs.length) (hacq : ReqAt p m (fun r => r.acquired = true)) :
-    Good cap L R (p.mapStartTask m).1 ∧ p.reqs.length ≤ (p.mapStartTask m).1.reqs.length := by
+/-- `_start_task` for a map element whose map slot is in flight; one element is in hand -/
+theorem good_mapStartTask {cap : Cap} {L R : Bool} (p : Pool) (m : Nat) (l : Nat) (h : SpSt cap L R p m 1 (PM l 1))
+    (hacq : ReqAt p m (fun r => r.acquired = true)) :
+    (p.mapStartTask m).2 = false → Good cap L R (p.mapStartTask m).1 := by
   unfold mapStartTask
   split
-  · exact ⟨(tame_finishMeta p m _).good ⟨hg, hmap.ok⟩, (tame_finishMeta p m _).rql⟩
+  · intro _
+    exact good_finishMetaSp p m _ h (by omega) (fun c fr x => PM.acc1 x (by simp))
   · split
     · rename_i hl
-      exact ⟨⟨good0_waitRoom p m hg hl, mapOK_waitRoom hmap hlt (fun r hr _ => ⟨hacq r hr, Nat.le_refl _⟩)⟩,
-        by rw [reqsLen_waitRoom]; exact Nat.le_refl _⟩
-    · rename_i hl
-      exact ⟨good_takeSlotAndCreate p m true hg hmap hlt (by simpa using hl),
-        by rw [reqsLen_takeSlotAndCreate]; exact Nat.le_refl _⟩
+      intro _
+      exact good_waitRoomSp p m h hl (by omega) (fun r hr _ => ⟨hacq r hr, Int.le_refl 1⟩) (fun c fr x => PM.acc1 x (by simp))
+    · intro hb; cases hb
 
-theorem tame_pullItem (p : Pool) (m rest) : Tame p (p.pullItem m rest) := by
+theorem spSt_mapStartTask {cap : Cap} {L R : Bool} (p : Pool) (m : Nat) (l : Nat) (h : SpSt cap L R p m 1 (PM l 1)) :
+    (p.mapStartTask m).2 = true → SpSt cap L R (p.mapStartTask m).1 m 0 (PM l 0) := by
+  unfold mapStartTask
+  split
+  · intro hb; cases hb
+  · split
+    · intro hb; cases hb
+    · rename_i hl
+      intro _
+      refine spSt_takeSlotAndCreate p m true h (by simpa using hl) ?_
+      intro r _ hp
+      obtain ⟨a, b, c, d⟩ := hp
+      exact ⟨a, b, by show r.pulled = r.created + 1 + r.skipped + 0; have : r.pulled = r.created + r.skipped + 1 := c; omega, d⟩
+
+/-- one pull from the argument iterator (user code included): one more element is in hand -/
+theorem spSt_pullItem {cap : Cap} {L R : Bool} (p : Pool) (m : Nat) (rest : List Item)
+    (h : SpSt cap L R p m 0 (PM (rest.length + 1) 0)) : SpSt cap L R (p.pullItem m rest) m 0 (PM rest.length 1) := by
   unfold pullItem
   simp only
-  refine Tame.trans (Tame.trans (tame_modReq p m _ ?_) (tame_logEv _ _)) (tame_runHooks _ m _)
-  intro x
-  exact ⟨rfl, rfl, rfl, by simp [Req.pend], fun _ _ h => by cases h⟩
+  have h1 : SpSt cap L R (p.modReq m fun x => { x with items := rest, pulled := x.pulled + 1, acquired := false, frame := MFrame.running }) m 0
+      (PM rest.length 1) := by
+    refine h.modReq' _ _ (fun r => ⟨rfl, rfl, by simp [Req.pend]⟩) (fun _ _ _ _ hf => by cases hf) (fun _ => rfl) ?_
+    intro r _ hp
+    obtain ⟨a, b, c, d⟩ := hp
+    have b' : r.pulled + r.items.length = r.n0 := b
+    have c' : r.pulled = r.created + r.skipped + 0 := c
+    have d' : r.items.length = rest.length + 1 := d
+    exact ⟨a, by show r.pulled + 1 + rest.length = r.n0; omega, by show r.pulled + 1 = r.created + r.skipped + 1; omega, rfl⟩
+  exact (h1.tame (tame_logEv _ _) (PM.ff _ _)).tame (tame_runHooks _ m _) (PM.ff _ _)
 
 /-- taking a slot of the call's own semaphore on the fast path: one slot of `m` is in flight -/
-theorem mapMid_takeMapSlot {p : Pool} {m : Nat} (h : MapOK p)
-    (hl : (p.reqs[m]?.getD default).mapSem.locked = false) : MapMid (p.takeMapSlot m) m 1 := by
+theorem spSt_takeMapSlot {cap : Cap} {L R : Bool} {P : Cnt → MFrame → Prop} (p : Pool) (m : Nat)
+    (h : SpSt cap L R p m 0 P) (hP : FrameFree P) (hl : (p.reqs[m]?.getD default).mapSem.locked = false) :
+    SpSt cap L R (p.takeMapSlot m) m 1 P ∧ ReqAt (p.takeMapSlot m) m (fun r => r.acquired = true) := by
   unfold takeMapSlot
-  refine (h.mid m).modReq _ 1 ?_ (fun _ => rfl) (fun _ _ _ _ hf => by cases hf)
+  refine ⟨h.modReq _ 1 P ?_ (fun _ => rfl) (fun _ _ _ _ hf => by cases hf) (fun _ => rfl) (fun r _ hp => hP _ _ _ hp),
+    reqAt_modReq_new _ m _ _ (fun _ => rfl)⟩
   intro r v hr hv
   rw [hr] at hl
   have hpos := locked_false_pos r.mapSem v hv hl
@@ -347,43 +439,61 @@ theorem mapMid_takeMapSlot {p : Pool} {m : Nat} (h : MapOK p)
   rw [hp, hw]; omega
 
 /-- `_arg_consumer` from any position, argument iterator (user code) included -/
-theorem good_mapLoop {cap : Cap} {L R : Bool} (m : Nat) (items : List Item) (p : Pool) (hg : Good cap L R p)
-    (hlt : m < p.reqs.length) : Good cap L R (mapLoop m items p) := by
+theorem good_mapLoop {cap : Cap} {L R : Bool} (m : Nat) (items : List Item) (p : Pool)
+    (h : SpSt cap L R p m 0 (PM items.length 0)) : Good cap L R (mapLoop m items p) := by
   induction items generalizing p with
   | nil =>
     unfold mapLoop
-    exact (Tame.trans (tame_modReq p m _) (tame_finishMeta _ m _)).good hg
+    refine good_finishMetaSp _ m _ (h.modReq' _ (PM 0 0) (fun _ => ⟨rfl, rfl, Nat.le_refl _⟩) (fun _ _ x => x) (fun _ => rfl) ?_)
+      (Int.le_refl 0) (fun c fr x => PM.acc0 x (by simp))
+    intro r _ hp
+    obtain ⟨a, b, c, d⟩ := hp
+    have d' : r.items.length = 0 := d
+    exact ⟨a, by show r.pulled + 0 = r.n0; have : r.pulled + r.items.length = r.n0 := b; omega, c, rfl⟩
   | cons it rest ih =>
     unfold mapLoop
     simp only
-    have t0 := tame_pullItem p m rest
-    have hg0 := t0.good hg
-    have hlt0 : m < (p.pullItem m rest).reqs.length := Nat.lt_of_lt_of_le hlt t0.rql
+    have h0 := spSt_pullItem p m rest h
     split
-    · exact ih _ ((tame_modReq _ m _).good hg0) (by simpa [modReq] using hlt0)
+    · refine ih _ (h0.modReq' _ (PM rest.length 0) (fun _ => ⟨rfl, rfl, Nat.le_refl _⟩) (fun _ _ x => x) (fun _ => rfl) ?_)
+      intro r _ hp
+      obtain ⟨a, b, c, d⟩ := hp
+      exact ⟨a, b, by show r.pulled = r.created + (r.skipped + 1) + 0; have : r.pulled = r.created + r.skipped + 1 := c; omega, d⟩
     · split
-      · exact (tame_waitMapSem _ m).good hg0
+      · exact good_waitMapSemSp _ m h0 (fun c fr x => PM.acc1 x (by simp))
       · rename_i hl
-        have hg1 : Good0 cap L R ((p.pullItem m rest).takeMapSlot m) := (tame0_modReq _ m _).good0 hg0.toGood0
-        have hm1 := mapMid_takeMapSlot (m := m) hg0.map (by simpa using hl)
-        have hlt1 : m < ((p.pullItem m rest).takeMapSlot m).reqs.length := by simpa [takeMapSlot, modReq] using hlt0
-        have hacq : ReqAt ((p.pullItem m rest).takeMapSlot m) m (fun r => r.acquired = true) :=
-          reqAt_modReq_new _ m _ _ (fun _ => rfl)
-        obtain ⟨hg2, hle⟩ := good_mapStartTask _ m hg1 hm1 hlt1 hacq
+        obtain ⟨h1, hacq⟩ := spSt_takeMapSlot _ m h0 (PM.ff _ _) (by simpa using hl)
         split
-        · exact ih _ hg2 (Nat.lt_of_lt_of_le hlt1 hle)
-        · exact hg2
+        · rename_i hb
+          exact ih _ (spSt_mapStartTask _ m rest.length h1 hb)
+        · rename_i hb
+          exact good_mapStartTask _ m rest.length h1 hacq (by simpa using hb)
 
-theorem good_continueSpawner {cap : Cap} {L R : Bool} (p : Pool) (m : Nat) (hg : Good cap L R p) (hlt : m < p.reqs.length) :
+/-- what `continueSpawner` needs after a task was created in `_start_task`: apply — one invocation less than the
+(stale) `remaining` field says; map — nothing in hand -/
+def PC : Cnt → MFrame → Prop := fun c fr =>
+  (c.kind = .apply → c.created + c.skipped + (c.remaining - 1) = c.n0) ∧ (c.kind = .map → PM c.left 0 c fr)
+
+theorem good_continueSpawner {cap : Cap} {L R : Bool} (p : Pool) (m : Nat) (h : SpSt cap L R p m 0 PC) :
     Good cap L R (p.continueSpawner m) := by
   unfold continueSpawner
   simp only
+  have hlt := h.lt
+  obtain ⟨r, hr⟩ : ∃ r, p.reqs[m]? = some r := ⟨p.reqs[m], List.getElem?_eq_getElem hlt⟩
+  rw [hr]
+  simp only [Option.getD_some]
   split
   · rename_i hk
-    refine good_applyLoop m _ p hg ?_ hlt
-    intro r hr
-    rw [hr] at hk; exact hk
-  · exact good_mapLoop m _ p hg hlt
+    refine good_applyLoop m _ p ⟨h.g0, h.mp, ⟨h.ac.ref, h.ac.tk, h.ac.rq, ?_⟩, h.lt⟩
+    intro r' hr'
+    rw [hr] at hr'; cases hr'
+    exact ⟨hk, (h.ac.here r hr).1 hk⟩
+  · rename_i hk
+    have hkm : r.kind = .map := by cases hkk : r.kind <;> simp_all
+    refine good_mapLoop m _ p ⟨h.g0, h.mp, ⟨h.ac.ref, h.ac.tk, h.ac.rq, ?_⟩, h.lt⟩
+    intro r' hr'
+    rw [hr] at hr'; cases hr'
+    exact (h.ac.here r hr).2 hkm
 
 /-! ### waking up in `acquire()` -/
 
